@@ -313,6 +313,114 @@ def run_lines(exe, lines, timeout=600, env=None):
 
 
 # ---------------------------------------------------------------------------------------------
+# running the real editor (built from /repo's working tree by build_vi)
+
+from concurrent.futures import ThreadPoolExecutor
+
+
+def pmap(f, xs, workers=16):
+    """Parallel map preserving order (threads; the work is in child processes)."""
+    with ThreadPoolExecutor(max_workers=workers) as ex:
+        return list(ex.map(f, xs))
+
+
+_case_n = [0]
+_case_lock = __import__('threading').Lock()
+
+
+def case_dir():
+    with _case_lock:
+        _case_n[0] += 1
+        n = _case_n[0]
+    d = os.path.join(tmpdir(), 'case%d' % n)
+    os.makedirs(d)
+    return d
+
+
+class RunOut:
+    """Outcome of one run of the editor: rc (None = timed out), stdout bytes, stderr bytes,
+    files = {name: bytes or None} read back after the run, wall seconds."""
+    def __init__(self, rc, out, err, files, wall, timed_out):
+        self.rc, self.out, self.err, self.files, self.wall, self.timed_out = rc, out, err, files, wall, timed_out
+
+    def crashed(self):
+        return self.timed_out or self.rc is None or self.rc < 0 or self.rc >= 100 or b'ERROR: AddressSanitizer' in self.err or b'runtime error:' in self.err
+
+
+def run_editor(exe, args, stdin_bytes, files=None, readback=(), timeout=10, env=None, keep=False):
+    """Run the editor in a fresh directory.  files: {name: bytes} created first; args: argv after
+    the executable (file names relative to the directory); readback: names to read afterwards.
+    The process gets its own session (term_suspend's kill(0, SIGSTOP) cannot stop the harness)."""
+    d = case_dir()
+    for name, data in (files or {}).items():
+        with open(os.path.join(d, name), 'wb') as f:
+            f.write(data)
+    e = {'PATH': '/usr/bin:/bin', 'HOME': d, 'EXINIT': '', 'TERM': 'xterm', 'LINES': '24', 'COLUMNS': '80',
+         'ASAN_OPTIONS': 'detect_leaks=0:abort_on_error=0:exitcode=101', 'UBSAN_OPTIONS': 'halt_on_error=1:exitcode=102:print_stacktrace=1'}
+    if env:
+        e.update(env)
+    t0 = time.time()
+    timed_out = False
+    p = subprocess.Popen([exe] + list(args), stdin=subprocess.PIPE, stdout=subprocess.PIPE, stderr=subprocess.PIPE,
+                         cwd=d, env=e, start_new_session=True)
+    try:
+        out, err = p.communicate(stdin_bytes, timeout=timeout)
+        rc = p.returncode
+    except subprocess.TimeoutExpired:
+        try:
+            os.killpg(p.pid, 9)
+        except Exception:
+            p.kill()
+        out, err = p.communicate()
+        rc = None
+        timed_out = True
+    got = {}
+    for name in readback:
+        fp = os.path.join(d, name)
+        got[name] = open(fp, 'rb').read() if os.path.exists(fp) else None
+    if not keep:
+        shutil.rmtree(d, ignore_errors=True)
+    return RunOut(rc, out, err, got, time.time() - t0, timed_out)
+
+
+def run_ex(exe, script, files=None, args=None, readback=(), timeout=10, env=None):
+    """vi -s -e <args> < script   (script: bytes; should end in a quit command)."""
+    return run_editor(exe, ['-s', '-e'] + list(args or []), script, files, readback, timeout, env)
+
+
+def run_vi(exe, keys, files=None, args=None, readback=(), rows=24, cols=80, timeout=10, env=None):
+    """vi -v <args> with the key bytes on stdin; stdout is the terminal byte stream."""
+    e = {'LINES': str(rows), 'COLUMNS': str(cols)}
+    if env:
+        e.update(env)
+    return run_editor(exe, ['-v'] + list(args or []), keys, files, readback, timeout, e)
+
+
+def shrink(items, fails, max_steps=400):
+    """Delta debugging on a list: returns a (locally) minimal sublist on which fails(sub) is
+    still true.  fails must be deterministic."""
+    items = list(items)
+    n = 2
+    steps = 0
+    while len(items) >= 2 and steps < max_steps:
+        chunk = max(1, len(items) // n)
+        reduced = False
+        for i in range(0, len(items), chunk):
+            cand = items[:i] + items[i + chunk:]
+            steps += 1
+            if cand and fails(cand):
+                items = cand
+                n = max(n - 1, 2)
+                reduced = True
+                break
+        if not reduced:
+            if chunk == 1:
+                break
+            n = min(n * 2, len(items))
+    return items
+
+
+# ---------------------------------------------------------------------------------------------
 # known findings
 
 
@@ -352,6 +460,7 @@ class Result:
         self.assumptions = []
         self.level = 'proof'
         self.distribution = {}
+        self._listed = None
 
     def count(self, key, n=1):
         self.distribution[key] = self.distribution.get(key, 0) + n
@@ -359,6 +468,26 @@ class Result:
     def sample(self, x, limit=6):
         if len(self.samples) < limit:
             self.samples.append(x)
+
+    def violation(self, v, kf=None):
+        """Record that the implementation violates the property on v['input'].  kf names the
+        known finding whose call-site classifier recognised this root cause (the caller decides
+        that); it only suppresses the alarm if KNOWN_FINDINGS.txt lists it for this property."""
+        if kf is not None:
+            if self._listed is None:
+                self._listed = {k['id']: k['text'] for k in known_findings(self.pid)}
+            if kf in self._listed:
+                if kf not in self.known:
+                    self.known[kf] = v.get('what', '')
+                self.count('known finding ' + kf)
+                return False
+        if len(self.violations) < 20:
+            self.violations.append(v)
+        return True
+
+    def disagree(self, d):
+        if len(self.disagreements) < 20:
+            self.disagreements.append(d)
 
     def nontriv(self, key):
         self.nontrivial.add(key if isinstance(key, (str, bytes, int, tuple)) else json.dumps(key, sort_keys=True))
